@@ -236,8 +236,18 @@ def build(rng, tier):
         pid = f"na{i}"
         variants = [(pid, eng.rs_module(pid, p), "base"), (f"{pid}_run", module_run(f"{pid}_run", p, init_rels={0, 1}), "ascent_run"),
                     (f"{pid}_runpar", module_run(f"{pid}_runpar", p, par=True, init_rels={0, 1}), "ascent_run_par")]
-        for vid, text, kind in variants:
+        # ... and with a relation that has NO initialiser, no fact and no deriving rule at all (statically empty inside ascent_run!): a negation over it holds,
+        # count / sum over it are 0 - the rules consulting it fire all the same
+        variants1 = [(f"{pid}_run1", module_run(f"{pid}_run1", p, init_rels={0}), "ascent_run"), (f"{pid}_runpar1", module_run(f"{pid}_runpar1", p, par=True, init_rels={0}), "ascent_run_par"),
+                     (f"{pid}_run0", module_run(f"{pid}_run0", p, init_rels=set()), "ascent_run")]
+        for vid, text, kind in variants + variants1:
             progs[vid] = p; mods.append((vid, text))
+        for j in range(2 if tier == "quick" else 5):
+            inp = {0: list(dict.fromkeys((r4.range(0, 6),) for _ in range(r4.range(1, 4)))), 1: [], 2: [], 3: [], 4: []}
+            for vi, (vid, text, kind) in enumerate([variants[0]] + variants1):
+                if vid.endswith("_run0"): inp = dict(inp); inp[0] = []
+                inst = f"{vid}_e{j}"
+                cases.append(engcheck.Case(vid, inst, engcheck.std_history(inst, vid, inp), {"inp": inp, "kind": kind + " (negation / aggregation over a relation nothing fills)" if kind != "base" else kind}))
         for j in range(3 if tier == "quick" else 8):
             inp = {0: list(dict.fromkeys((r4.range(0, 6),) for _ in range(r4.range(1, 4)))), 1: list(dict.fromkeys((r4.range(0, 6), r4.range(0, 4)) for _ in range(r4.range(1, 6)))), 2: [], 3: [], 4: []}
             for vid, text, kind in variants:
